@@ -262,6 +262,11 @@ class CTransitionTableModel(CStateMachineModel):
                     self.transitionsperstate[tableline[self.START_STATE]][tableline[self.EVENT]] = []
                 self.transitionsperstate[tableline[self.START_STATE]][tableline[self.EVENT]].append(transition)
 
+        # A state that is only ever a target has no outgoing transitions, but still needs its per-state code.
+        for state in self.states:
+            if not state in self.transitionsperstate:
+                self.transitionsperstate[state] = OrderedDict()
+
     def getfirststate(self):
         if not self.transition_table:
             return "NO TT PRESENT!"
